@@ -104,8 +104,9 @@ fn pool(threads: usize) -> std::sync::Arc<rayon::ThreadPool> {
 
 /// `sigadd <threads> <force> <specs> <hexseq>…` / `sigprot <threads> <specs> <hexseq>…`: a fresh
 /// signature, the sequences added one after the other through `Signature::add_sequence` /
-/// `add_protein` (the rayon variant: the harness is built with `parallel`) inside a pool of
-/// `<threads>` threads.  `ok <sketch>|<sketch>|…` after the last call, or at the first failing call
+/// `add_protein` inside a pool of `<threads>` threads (default build, sourmash with `branchwater`:
+/// the rayon variant; `--no-default-features`: the serial loop of the crate's default feature set,
+/// which runs in-line on the calling pool thread).  `ok <sketch>|<sketch>|…` after the last call, or at the first failing call
 /// `err <Variant> <sketch>|…` (one thread: the run is deterministic) resp. `err <Variant> legal`
 /// (several threads: which of the other sketches were still updated is up to the scheduler; `legal`
 /// = every sketch is untouched or equals what the single-sketch call makes of it, and one of the
@@ -138,6 +139,22 @@ fn sig_add(threads: usize, force: bool, prot: bool, specs: &str, seqs: &[&str]) 
                 });
                 all_in &= u || d;
                 failing_ran |= r.is_err() && d;
+            }
+            // built against the crate's default feature set the call is the serial loop, whatever
+            // pool it runs in: exactly the sketches before the first failing one are updated, the
+            // failing one is left as its own call leaves it, the rest is untouched
+            #[cfg(not(feature = "disk"))]
+            {
+                let first_bad = before
+                    .iter()
+                    .position(|b| {
+                        let mut single = b.clone();
+                        (if prot { single.add_protein(&seq) } else { single.add_sequence(&seq, force) }).is_err()
+                    })
+                    .unwrap_or(usize::MAX);
+                for (i, t) in tags.iter().enumerate() {
+                    all_in &= if i <= first_bad { *t == "a" || *t == "=" } else { *t == "u" || *t == "=" };
+                }
             }
             return if all_in && failing_ran {
                 format!("{} legal", err(e))
@@ -390,13 +407,27 @@ fn second_keys(r: &mut Rng, regime: &str, u: &[u64], a: &[u64]) -> Vec<u64> {
 fn gen_specs(r: &mut Rng, nsk: u64, only: Option<bool>) -> String {
     // `only`: Some(true) = DNA sketches only, Some(false) = protein-family only, None = mixed
     let mut v = vec![];
+    let mut kms: Vec<(&'static str, u64, u64)> = vec![];
     for _ in 0..nsk {
         let dna = match only {
             Some(d) => d,
             None => r.chance(1, 2),
         };
-        let m = if dna { "dna" } else { *r.pick(&["protein", "dayhoff", "hp"]) };
-        let k = if dna { *r.pick(&[3u64, 4, 5, 7, 11, 21, 31]) } else { *r.pick(&[3u64, 6, 7, 9, 10, 15, 21, 30]) };
+        let mut m = if dna { "dna" } else { *r.pick(&["protein", "dayhoff", "hp"]) };
+        let mut k = if dna { *r.pick(&[3u64, 4, 5, 7, 11, 21, 31]) } else { *r.pick(&[3u64, 6, 7, 9, 10, 15, 21, 30]) };
+        let mut seed = *r.pick(&[42u64, 42, 7]);
+        // every fourth sketch after the first repeats the ksize and molecule type of an earlier one
+        // (num/scaled, container and abundance drawn afresh), half of these with the OTHER seed:
+        // sketches of one signature that see the same k-mers but must hash them differently
+        if !kms.is_empty() && r.chance(1, 4) {
+            let (pm, pk, ps): (&'static str, u64, u64) = *r.pick(&kms);
+            if only.is_none() || only == Some(pm == "dna") {
+                m = pm;
+                k = pk;
+                seed = if r.chance(1, 2) { ps } else if ps == 42 { 7 } else { 42 };
+            }
+        }
+        kms.push((m, k, seed));
         let is_num = r.chance(1, 3);
         let scaled = if is_num { 0 } else { *r.pick(&[1u64, 1, 2, 3, 10]) };
         let num = if is_num { *r.pick(&[1u64, 3, 8, 500]) } else { 0 };
@@ -407,7 +438,7 @@ fn gen_specs(r: &mut Rng, nsk: u64, only: Option<bool>) -> String {
             num,
             k,
             m,
-            *r.pick(&[42u64, 42, 7]),
+            seed,
             r.chance(1, 2) as u8
         ));
     }
